@@ -1,7 +1,7 @@
 #!/bin/bash
 # usage: seeded_try_h.sh <seed-name> <harness> <roots> <solver> <params>   (development: one harness against a seeded scratch worktree)
 name=$1; h=$2; roots=$3; solver=${4:-z3}; params=$5
-wt=/tmp/wt-seedtry
+wt=${SEED_WT:-/tmp/wt-seedtry}
 if [ ! -d $wt ]; then git -C /repo worktree add --detach $wt HEAD >/dev/null 2>&1 || exit 2; fi
 cd $wt && git checkout -q -- . && git checkout -q --detach $(git -C /repo rev-parse HEAD) || exit 2
 git apply /verif/seeded/$name/patch.diff || { echo "$name: patch does not apply"; exit 2; }
